@@ -162,12 +162,20 @@ def _loop_back_and_proxy_first(ctx, rep, tier):
             tv = ast.unparse(inner.target)
             src = ast.unparse(inner)
             skip_err = any(isinstance(s, ast.If) and ast.unparse(s.test) == f"{tv}.error_handling" and isinstance(s.body[-1], ast.Continue) for s in inner.body)
-            widen = re.search(r"if DFTransition\.Else in (\w+):\s+\1\.update\(%s\.compute_foreign_else_definition\((\w+)\)\)" % re.escape(av), src)
+            widen = re.search(r"if DFTransition\.Else in (\w+):\s+\1\.update\((\w+)\.compute_foreign_else_definition\((\w+)\)\)", src)
             init = re.search(r"(\w+) = set\(%s\.on_values\)" % re.escape(tv), src)
             symloop = [x for x in inner.body if isinstance(x, ast.For) and init and ast.unparse(x.iter) == init.group(1)]
-            if not (skip_err and widen and init and widen.group(1) == init.group(1) and symloop):
+            if not (skip_err and widen and init and widen.group(1) == init.group(1) and symloop and av in (widen.group(2), widen.group(3))):
                 continue
-            startv = widen.group(2)
+            # orientation (F-84): the Else of the END state is widened by the symbols the loop START names and the end state does not. compute_foreign_else_definition
+            # returns <receiver's alphabet> - <argument's alphabet> (+ Else) - read off its definition - so the receiver must be the loop start
+            cfd = ast.unparse(model.func("DFState.compute_foreign_else_definition"))
+            recv_minus_arg = "our_alphabet = self.local_alphabet()" in cfd and "their_alphabet = other_state.local_alphabet()" in cfd and "local_else_additions = our_alphabet - their_alphabet" in cfd
+            startv = widen.group(2) if widen.group(3) == av else widen.group(3)
+            rep.check(recv_minus_arg and widen.group(3) == av, "C09.h", fq, "widening = symbols named by the loop start and not by the end state (receiver: loop start)",
+                      f"the end state's Else is widened by `{widen.group(2)}.compute_foreign_else_definition({widen.group(3)})` = symbols of {widen.group(2)} not named by {widen.group(3)}: "
+                      "the bytes the loop start names are never looked up, so a byte that continues the body's last statement through `.` / `[^..]` and also starts the next iteration "
+                      "is not seen - `loop { it(); \"a\"; /(.b)*/; }` is accepted")
             rep.check(model.has(fq, f"{startv} = sub_dfa.starting_state"), "C09.h", fq, "widening is relative to the body's start state", "loop start binding changed")
             sl = symloop[0]
             sv = ast.unparse(sl.target)
@@ -195,3 +203,47 @@ _run_j = run
 def run(ctx, rep, tier):
     _run_j(ctx, rep, tier)
     _loop_back_and_proxy_first(ctx, rep, tier)
+
+
+# ---------------------------------------------------------------------------------------------------------------- C09.k
+def _one_else_clause(ctx, rep, tier):
+    """C09.k (F-85): the clause table of a case statement is keyed by the set of a clause's labels with `else` as None, so two else clauses collide (or, with else in
+    two different label sets, both claim the same inputs and CaseNode keeps one slot). Every place that enters the result of _parse_case_clause into a table
+    must refuse a second clause containing else first."""
+    import ast
+    from ..srcmodel import walk_no_nested, raised_class
+    model = ctx.model
+    rep.rule("C09.k", "every clause entered into a case statement's clause table passes the 'second else clause' refusal first")
+    n = 0
+    for q, f in model.functions.items():
+        for node in walk_no_nested(f):
+            # comprehension straight from the clause parser: no place for a test
+            if isinstance(node, (ast.DictComp,)) and "_parse_case_clause" in ast.unparse(node):
+                n += 1
+                rep.bad("C09.k", q, ast.unparse(node)[:80], "the clause table is built by a comprehension over _parse_case_clause: a second `else` clause has the same key "
+                        "frozenset({None}) and silently replaces the first (`case { \"a\" -> {..} else -> { x = 2; } else -> { x = 3; } }` runs x = 3)", line=node.lineno)
+            if isinstance(node, ast.Assign) and isinstance(node.value, ast.Call) and ast.unparse(node.value.func) == "self._parse_case_clause" and isinstance(node.targets[0], ast.Tuple):
+                kv = ast.unparse(node.targets[0].elts[0])
+                body = model.parents.get(node)
+                seq = None
+                for fld in ("body", "orelse"):
+                    if hasattr(body, fld) and node in getattr(body, fld):
+                        seq = getattr(body, fld)
+                stores = [s for s in (seq or []) if isinstance(s, ast.Assign) and isinstance(s.targets[0], ast.Subscript) and ast.unparse(s.targets[0].slice) == kv and seq.index(s) > seq.index(node)]
+                for st in stores:
+                    n += 1
+                    table = ast.unparse(st.targets[0].value)
+                    between = seq[seq.index(node) + 1:seq.index(st)]
+                    ok = any(isinstance(b, ast.If) and re.fullmatch(r"None in %s and any\(\(?None in (\w+) for \1 in %s\)?\)" % (re.escape(kv), re.escape(table)), ast.unparse(b.test))
+                             and isinstance(b.body[-1], ast.Raise) and model.is_subclass(raised_class(b.body[-1]) or "", "NMFUError") for b in between)
+                    rep.check(ok, "C09.k", q, f"{table}[{kv}] = ... after the second-else refusal",
+                              f"`{ast.unparse(st)}` enters a clause into the table without refusing a second clause that contains `else`: the earlier one is silently dropped", line=st.lineno)
+    rep.check(n >= 1, "C09.k", "ParseCtx", f"{n} clause-table stores examined", "no store of a parsed case clause found: re-derive this rule")
+
+
+_run_k = run
+
+
+def run(ctx, rep, tier):
+    _run_k(ctx, rep, tier)
+    _one_else_clause(ctx, rep, tier)
